@@ -35,6 +35,9 @@ def requests():
         Request(PM, fn=["stir::Bin::operator=="]),
         Request(DS, fn=["stir::DataSymmetriesForBins_PET_CartesianGrid::DataSymmetriesForBins_PET_CartesianGrid"]),
         Request("src/recon_buildblock/ProjMatrixByBinUsingInterpolation.cxx", fn=["stir::ProjMatrixByBinUsingInterpolation::.*"], files=["/repo/src/recon_buildblock/ProjMatrixByBinUsingInterpolation.cxx"]),
+        Request("src/recon_buildblock/ProjMatrixByBinUsingInterpolation.cxx", fn=["stir::.*"], files=["/repo/src/recon_buildblock/ProjMatrixByBinUsingInterpolation.cxx"]),
+        Request(RT, fn=["stir::.*"], files=["/repo/src/recon_buildblock/ProjMatrixByBinUsingRayTracing.cxx", "/repo/src/recon_buildblock/RayTraceVoxelsOnCartesianGrid.cxx"]),
+        Request("src/buildblock/date_time_functions.cxx", fn=["stir::.*"], files=["/repo/src/buildblock/date_time_functions.cxx"]),
     ]
 
 
@@ -469,6 +472,48 @@ def uniq(fns):
     return out
 
 
+def _static_state(f):
+    """references in f to local variables with static or thread storage that are not const: state that survives the call"""
+    out = []
+    for m in f.walk():
+        if m.k == "DeclRefExpr" and m.get("dk") == "staticlocal" and not re.match(r"const\b", (m.type or "").strip()):
+            out.append(m)
+    return out
+
+
+def rule_h_rows_have_no_hidden_state(ctx, groups, control):
+    """A row may depend on the bin, the geometry the matrix was set up for and its settings - not on which rows were computed before.
+    Apart from the cache (clauses a-c), nothing the row computation does may survive the call: no function in the files that compute
+    rows (members of the matrix classes and their file-local helpers) uses a non-const local with static or thread storage duration
+    (a memo keyed on less than everything the value depends on, shared by all objects and never reset by set_up)."""
+    RULE = "C03.h-rows-have-no-hidden-state"
+    n = 0
+    for name, fns in groups:
+        seen = set()
+        bad = []
+        cnt = 0
+        for f in fns:
+            if f.body is None or (f.file, f.body.line) in seen:
+                continue
+            seen.add((f.file, f.body.line))
+            cnt += 1
+            st = _static_state(f)
+            if st:
+                bad.append((f, st[0]))
+        if cnt < 5:
+            ctx.unrec(name, "only %d functions found in the row-computing files" % cnt)
+            continue
+        ok = not bad
+        ctx.ob(RULE, name, "static-locals", ok, (bad[0][1] if bad else fns[0]).where(), "none of the %d functions that compute rows keeps state in a static or thread-local variable" % cnt if ok else "%s uses the static/thread-local variable `%s`: what it holds was computed for an earlier row - possibly of another geometry or another matrix object - and is not reset by set_up(); rows then depend on the request history" % (bad[0][0].qn, bad[0][1].get("n")))
+        n += 1
+    # positive control: the matcher must see the static locals of a function known to have them
+    hits = [m for f in control if f.body is not None for m in _static_state(f)]
+    if not hits:
+        ctx.fail_broken("control for C03.h failed: no static local recognised in date_time_functions.cxx (the matcher is blind)")
+    ctx.stats["static_local_control_hits"] = len(hits)
+    return n
+
+
 def run(ctx):
     ctx.explanation = (
         "Decides: (a) ProjMatrixByBin::cache_key packs sign and magnitude of axial, tangential and TOF index into pairwise disjoint "
@@ -488,7 +533,7 @@ def run(ctx):
     us = [ctx.ex.get(r) for r in reqs]
     if any(u is None for u in us):
         return
-    pm, rt, so, ds, be, ctor, ip = (uniq(u.functions) for u in us)
+    pm, rt, so, ds, be, ctor, ip = (uniq(u.functions) for u in us[:7])
     rule_a(ctx, pm, be)
     rule_b(ctx, pm)
     rule_c(ctx, pm, rt)
@@ -500,6 +545,10 @@ def run(ctx):
     ctx.require_count("C03.f-view-symmetry-flags-consistent", 1)
     rule_g_setup_keeps_settings(ctx, [("stir::ProjMatrixByBinUsingRayTracing", rt), ("stir::ProjMatrixByBinUsingInterpolation", ip)])
     ctx.require_count("C03.g-setup-keeps-settings", 14)
+    uh = [ctx.ex.get(r) for r in reqs[7:10]]
+    if all(u is not None for u in uh):
+        rule_h_rows_have_no_hidden_state(ctx, [("interpolation matrix (ProjMatrixByBinUsingInterpolation.cxx)", uh[0].functions), ("ray-tracing matrix (ProjMatrixByBinUsingRayTracing.cxx, RayTraceVoxelsOnCartesianGrid.cxx)", uh[1].functions)], uh[2].functions)
+        ctx.require_count("C03.h-rows-have-no-hidden-state", 2)
     ctx.require_count("C03.a-cache-key-injective", 12)
     ctx.require_count("C03.b-cached-row-is-finished-row", 4)
     ctx.require_count("C03.c-setup-drops-cache", 8)
